@@ -6,7 +6,13 @@ import functools, os
 
 MSG_PREFIX = "msg_"          # custom output x has message "msg_x" in generated workflows
 
+class Killed(BaseException):
+    """Simulated abrupt death of the scheduler process (not an Exception: nothing in cylc catches it)."""
+
 class Tracer:
+    kill_emit = None      # die right after emitting event number n
+    kill_stmt = None      # die right after executing private-DB statement number n (before its commit)
+    stmt_count = 0
     def __init__(self):
         self.events = []
         self.ctx = []            # stack of enclosing critical sections
@@ -21,6 +27,9 @@ class Tracer:
         a["i"] = len(self.events)
         a["cx"] = list(self.ctx)
         self.events.append(a)
+        if self.kill_emit is not None and a["i"] == self.kill_emit:
+            self.kill_emit = None
+            raise Killed(f"event {a['i']}")
         return a
     def pt(self, point):
         s = str(point)
@@ -319,6 +328,21 @@ def install():
             return r
         return process_queued_ops
     _wrap(WorkflowDatabaseManager, "process_queued_ops", mk_commit)
+
+    # ---- private-DB statements (kill points inside a transaction)
+    from cylc.flow.rundb import CylcWorkflowDAO
+    def mk_stmt(orig):
+        def _execute_stmt(self, stmt, stmt_args_list):
+            r = orig(self, stmt, stmt_args_list)
+            if not self.is_public:
+                TR.stmt_count += 1
+                if TR.kill_stmt is not None and TR.stmt_count == TR.kill_stmt:
+                    TR.kill_stmt = None
+                    TR.emit("kill_in_txn", stmt=TR.stmt_count, sql=str(stmt)[:60])
+                    raise Killed(f"statement {TR.stmt_count}")
+            return r
+        return _execute_stmt
+    _wrap(CylcWorkflowDAO, "_execute_stmt", mk_stmt)
 
     # ---- scheduler level
     def mk_set_stop(orig):
